@@ -21,6 +21,9 @@ var nasty = []string{
 
 var plainWords = strings.Fields("alpha beta gamma delta epsilon zeta eta theta iota kappa lambda sigma omega Section Chapter Overview results Methods the of and")
 
+// unitWords carry letters whose other case has another UTF-8 length.
+var unitWords = []string{"273 \u212a", "5 k\u2126", "0.1 \u212b", "STRA\u1e9eE", "straße", "10 kω", "3 å"}
+
 type sg struct{ r *rand.Rand }
 
 func (g sg) pick(xs []string) string { return xs[g.r.Intn(len(xs))] }
@@ -39,6 +42,9 @@ func (g sg) str(maxParts int, hostile float64) string {
 			w := g.pick(plainWords)
 			if g.r.Intn(4) == 0 {
 				w = strings.ToUpper(w)
+			}
+			if g.r.Intn(12) == 0 {
+				w = g.pick(unitWords)
 			}
 			sb.WriteString(w)
 		}
